@@ -19,19 +19,19 @@ CHECK = {
     "packages": ["./actor", "./internal/commands"],
     "harness": ["actor/zz_verif_rd.go", "actor/zz_verif_c44.go", "internal/commands/zz_verif_rd.go"],
     "entries": [
-        {"fn": P + "vC44_step", "replay": "model-only", "cases": {"kind": [0, 1, 2, 3, 4, 5, 6], "seqBits": [16], "jobs": [2]},
+        {"fn": P + "vC44_step", "replay": "model-only", "cases": {"kind": [1, 7, 2, 0, 3, 4, 5, 6], "seqBits": [16], "jobs": [2]},
          "opts": {"loop_bounds": {W + "dispatchPending": 3, W + "nextEligibleBinding": 3}},
          "cover_optional": COVOPT, "may_be_unreachable": MBU},
-        # larger instances where they decide: Request / Ack (kinds 1, 2) with 3 jobs or 61-bit sequence numbers did not
-        # decide within 40 min per job and are therefore not registered
-        {"fn": P + "vC44_step", "replay": "model-only", "tiers": ("thorough",), "cases": {"kind": [0, 3, 4, 5, 6], "seqBits": [16, 61], "jobs": [3]},
+        # larger instances where they decide: Request / Ack with 3 jobs or 61-bit sequence numbers did not decide within 40 min
+        # per job, 3 jobs with 61-bit sequence numbers took 30-50 min per job for the other kinds: not registered
+        {"fn": P + "vC44_step", "replay": "model-only", "tiers": ("thorough",), "cases": {"kind": [0, 3, 4, 5, 6], "seqBits": [16], "jobs": [3]},
          "cover_optional": COVOPT, "may_be_unreachable": MBU},
     ],
     "opts": {"unwind": 8, "substitute": SUB, "feasibility": False, "batch_fresh": True, "reach_fresh": True, "equalfold_ascii": True,
              "loop_bounds": {W + "dispatchPending": 4, W + "nextEligibleBinding": 3}},
     "stop": [k for k in SUB.keys() if k.startswith("(*" + P)],
     "timeout_ms": {"quick": 600000, "thorough": 3000000},
-    "explanation": "One handler step of the real (*workPullingProducerController).Receive (volatile mode: queue == nil) from an arbitrary state satisfying Inv, one job per message kind (RegisterConsumer, Request, Ack, Produced, StoredAck, tick, Terminated): "
+    "explanation": "One handler step of the real (*workPullingProducerController).Receive (volatile mode: queue == nil) from an arbitrary state satisfying Inv, one job per message kind (RegisterConsumer, Request plain / ViaTimeout, Ack, Produced, StoredAck, tick, Terminated): "
                    "handleRegisterConsumer, handleRequest, handleAck, handleProduced, startStore, completeStore, replyStored, handleStoredAck, startAccept, completeAccept, owns, handleTick, handleTerminated, bindingFrom, progress, dispatchPending, nextEligibleBinding, allowNextRequest, aggregateFreeDemand, sendRequestNext, emitSequenced, resendUnconfirmed, advanceConfirmed, sendConfirmation, endBinding, bindingWork.freeDemand, terminate. "
                    "Pre-state: workers w1, w2 each bound or not (either registration order, any confirmedSeq/demandUpTo below the stated bound, any nextWorker in range), a universe of 2 jobs (3 in the thorough tier for five of the seven kinds) each nowhere, in the pending pool or held unconfirmed by w1 or w2 (ghost payload and store sequence per job), handshake Idle / Credit / StoredAck (pending job new or already held), a completed token or none. "
                    "Inv: bindingOrder lists exactly the keys of bindings, each once; nextWorker <= len(bindingOrder); per binding 0 <= confirmedSeq <= currentSeq and unconfirmed = the ascending contiguous worker sequences (confirmedSeq, currentSeq]; every job is held at most once. "
@@ -39,7 +39,7 @@ CHECK = {
                    "Asserted: Inv preserved; for every job: held exactly once afterwards unless an authenticated, in-bounds Request/Ack of its worker confirms a prefix covering its worker sequence (then gone, and reported to the producer exactly once when delivery confirmation is on) or it is the pending job accepted by the matching StoredAck (then held once) - so ending a binding (worker death, replaced companion, illegal demand/confirmation) moves ALL its unconfirmed jobs back, none lost or duplicated, payload and store sequence intact; "
                    "at every emission (tell helper substituted by the checker): the destination is the controller of exactly one live binding, workerSeq <= that binding's demandUpTo, the job is the one recorded under that sequence in that binding's unconfirmed list with its payload; a binding's currentSeq grows only under free demand; a new binding starts at sequence 0. "
                    "Liveness ('eventually handed to a worker'), the durable work queue and controller restarts are not claimed. Substituted (environment): the tell helper, (*ReceiveContext).Shutdown/Watch/UnWatch, (*actorSystem).getRemoting (identity serializer), (*actorSystem).authenticateWorkPullingWorker (arbitrary verdict), context.WithTimeout.",
-    "bounds": {"workers": "2", "jobs": "2; thorough adds 3 jobs for RegisterConsumer / Produced / StoredAck / tick / Terminated", "sequence numbers of the pre-state": "< 2^16; thorough adds < 2^61 for the same five kinds (Request / Ack with 3 jobs or 61-bit sequences did not decide within 40 min per job)", "dispatch loop": "unwinding assertion at jobs+1 iterations",
+    "bounds": {"workers": "2", "jobs": "2; thorough adds 3 jobs for RegisterConsumer / Produced / StoredAck / tick / Terminated", "sequence numbers of the pre-state": "< 2^16 (61-bit pre-states did not decide within the thorough budget; the handlers are translation invariant below their MaxInt64-1 overflow guards, which are therefore not exercised)", "dispatch loop": "unwinding assertion at jobs+1 iterations",
                "payloads": "1 byte", "store sequences": "distinct constants (carried data)"},
     "assumptions": ["map iteration order is insertion order (Go's randomisation is not modelled; both registration orders are explored)", "strings.EqualFold modelled for ASCII strings only",
                     "strings.TrimSpace of a symbolic string trims ASCII white space only"],
